@@ -23,7 +23,7 @@ THEOREMS = [_T + n for n in (
     "inv_after", "permits_conserved", "outstanding_le_initial", "bounded_value_le", "bounded_releases_le_grants",
     "no_idle_permit", "no_lost_wakeup", "fifo_among_live", "dead_never_granted", "grant_only_live",
     "bounded_release_raises", "lock_release_raises", "bounded_over_release_raises", "gc_preserves_abs",
-    "deadline_times_out",
+    "deadline_times_out", "refines_spec", "refines_spec_state",
 )]
 TRUSTED = [
     "asyncio event loop ordering as abstracted by the model's drain: ready callbacks (done-callbacks, FIFO) run before "
@@ -48,7 +48,7 @@ CLAUSES = {
     "timed-out or cancelled waiters never obtain one": "dead_never_granted + grant_only_live (+ deadline_times_out: a live waiter whose deadline is reached does time out)",
     "releasing beyond the initial value (bounded) or an unlocked lock raises": "bounded_release_raises + lock_release_raises + bounded_over_release_raises + bounded_releases_le_grants",
     "garbage collection of timed-out waiters is unobservable": "gc_preserves_abs",
-    "checked against a sequential reference model": "tie: Spec (sequential semaphore) is the oracle on every case; refinement theorem refines_spec: see docs/C33.md",
+    "checked against a sequential reference model": "refines_spec (output-trace equality Model = Spec for every history) + refines_spec_state; Spec is also the oracle applied to the implementation on every case",
 }
 PARALLEL = True
 CASE_TIMEOUT = 120     # generous: on a loaded machine a forked worker's first case was measured at 6 s wall for 0.4 s CPU
